@@ -39,7 +39,7 @@ REQUIRED = {"all": ["move:full_shuffle", "move:swapRes", "move:swapRandChargeRes
                     "move:permute_cluster_charges", "move:get_shuffled_sequence", "move:get_permutant", "chains",
                     "hostile_tapes", "parent_dmax_cached", "parent_dmax_not_cached", "frozen_nonempty", "frozen_only_zero",
                     "frozen_all_charged", "uncharged_parents", "returned_parent_itself", "carried_dmax_checked",
-                    "ancestors_checked", "frozen_as_numpy_array", "frozen_list_with_repeats"]}
+                    "ancestors_checked", "frozen_as_numpy_array", "frozen_list_with_repeats", "frozen_with_negative_entries"]}
 NCASE = {"quick": 700, "thorough": 8000}
 DRAW_BUDGET = 20000
 BACKEND_MOVES = ["full_shuffle", "swapRes", "swapRandChargeRes", "permute_block_swap", "permute_cluster_charges"]
@@ -83,6 +83,18 @@ def make_frozen(rng, seq, rep):
     if F:
         rep.cnt("frozen_nonempty")
     return sorted(set(F))
+
+
+def with_non_positions(rng, fz, N, rep):
+    """Sometimes add entries that are no positions of the sequence (negative, at or beyond the end): the set then still names
+    the same positions, so the same rearrangement law applies."""
+    if rng.random() < 0.3 and isinstance(fz, (set, list, tuple)):
+        extra = rng.sample([-1, -2, -N, -N - 1, N, N + 5, 10 * N], rng.randint(1, 3))
+        rep.cnt("frozen_with_entries_that_are_no_positions")
+        if any(e < 0 for e in extra):
+            rep.cnt("frozen_with_negative_entries")
+        return type(fz)(list(fz) + extra)
+    return fz
 
 
 def snap(q):
@@ -166,6 +178,7 @@ def judge(case, rep, S):
                     psnap = snap(parent)
                     fz = rng.choice([set(frozen), list(frozen), tuple(frozen), S["np"].array(frozen, dtype=int),
                                      list(frozen) + list(frozen)[len(frozen) // 2:]])
+                    fz = with_non_positions(rng, fz, N, rep)
                     if not isinstance(fz, (set, list, tuple)):
                         rep.cnt("frozen_as_numpy_array")
                     elif len(fz) > len(frozen):
@@ -225,6 +238,8 @@ def judge(case, rep, S):
                 else:
                     fz = rng.choice([set(frozen), list(frozen), tuple(frozen), S["np"].array(frozen, dtype=int),
                                      list(frozen) + list(frozen)[len(frozen) // 2:]]) if move == "full_shuffle" else set(frozen)
+                    if move == "full_shuffle":
+                        fz = with_non_positions(rng, fz, N, rep)
                     child = getattr(parent, move)(fz) if frozen or rng.random() < 0.5 else getattr(parent, move)()
                     fr = frozen
                     ctx = "(frozen %r, step %d of a chain from %s)" % (frozen, step, seq)
